@@ -357,6 +357,54 @@ func init() {
 					}
 				})
 			}
+			// a peer that subscribes its node management before it has answered discovery, loses its
+			// connection in that state and comes back (seed C08-f): its entry went with the connection,
+			// the same request is granted again and listed once
+			if w.T.Bool(1, 3, "early-leaver") {
+				pe := w.NewPeer("PE", "d:_i:PE", pr.L)
+				stdPeerTree(pe, false)
+				pe.AutoDD = false
+				pe.Connect()
+				w.EnableFaults("conn.drop")
+				w.Go("script:PE", func() {
+					nmT := model.FeatureTypeTypeNodeManagement
+					c1 := pe.SendSubscribe(pe.NM(), pe.LocalNM(), nmT, false, "sub:nm-before-discovery")
+					pe.Await(c1)
+					if !okResult(pe, c1) {
+						return // (refused before discovery: nothing to leave behind)
+					}
+					for k := w.T.Choose(6, "leaver-delay"); k > 0; k-- {
+						w.Yield("leaver-delay")
+					}
+					if !w.FaultsOn || !pr.L.Disconnect(pe.Name) {
+						return
+					}
+					w.Fault("conn.drop")
+					w.Fault("conn.restart")
+					w.Probe("c08-left-before-discovery")
+					pe.AutoDD = true
+					pe.Connect()
+					pe.AwaitDiscovery()
+					seen := len(pe.Conn.Out)
+					c2 := pe.SendSubscribe(pe.NM(), pe.LocalNM(), nmT, false, "sub:nm-after-return")
+					pe.Await(c2)
+					ok := false
+					for _, s := range pe.Conn.Out[seen:] {
+						if isRes, e := IsResult(s); isRes && e == 0 && s.D.Header.MsgCounterReference != nil && uint64(*s.D.Header.MsgCounterReference) == c2 {
+							ok = true
+						}
+					}
+					if !ok && !pe.Conn.Closed {
+						w.Violate("C08/valid-subscription-refused/after-leaving-before-discovery", "PE subscribed its node management before answering discovery, lost its connection, came back: the same request is refused")
+						return
+					}
+					if rd := pr.L.Dev.RemoteDeviceForSki(pe.Conn.Ski); rd != nil {
+						if n := len(pr.L.Dev.SubscriptionManager().Subscriptions(rd)); n != 1 {
+							w.Violate("C08/listing-after-leaving-before-discovery", "PE holds one subscription after its return, the list reported for it has %d entries", n)
+						}
+					}
+				})
+			}
 			for _, p := range pr.Peers {
 				p := p
 				d.rs.watch(p)
@@ -484,8 +532,13 @@ func init() {
 			checkFanout(w, "C08", d.pr, ops, d.dops)
 			// the harness's own subscription to the peers' node management is client side and
 			// produces no SubscriptionChange event on L
-			adds := d.ev.Count(api.EventTypeSubscriptionChange, api.ElementChangeAdd, "")
-			rems := d.ev.Count(api.EventTypeSubscriptionChange, api.ElementChangeRemove, "")
+			// (the events of the peers whose requests the registry model follows; the early leaver PE
+			// has its own checks)
+			adds, rems := 0, 0
+			for _, p := range d.pr.Peers {
+				adds += d.ev.Count(api.EventTypeSubscriptionChange, api.ElementChangeAdd, p.Conn.Ski)
+				rems += d.ev.Count(api.EventTypeSubscriptionChange, api.ElementChangeRemove, p.Conn.Ski)
+			}
 			if adds != granted {
 				w.Violate("C08/subscription-add-events", "%d subscription-added events for %d granted subscriptions", adds, granted)
 			}
